@@ -6,6 +6,8 @@ lines / stream.write() arguments, on all 160 modes x 4 styles in every tier.
 Spec oracle: the implementation's bytes are fed to the *extracted* Spec terminal (Spec/TermSpec.v) and
 decoded by Spec/PlaceholderSpec.v; the decoded cell map must be exactly the requested rectangle at the
 expected position (after scrolling), nothing else."""
+import os
+
 import common
 import placeholder_common as pc
 from common import hexs, unhex
@@ -260,9 +262,100 @@ def run(ctx, model):
                 "what": f"style {c['style']}: cell (y,x)={bad['cell_yx']} decodes to {bad['decoded']}, the statement requires {bad['expected']}",
                 "case": {"kind": "render", "case": c, "screen": scr}, "observed": bad, "impl_bytes": hexs(b"".join(impl_res[i][1]))[:2000]})
     cov.bump("oracle-evaluations", len(todo))
+    highlevel_display(ctx, model, cov)
     if len(todo) * 10 < len(ok_idx):
         ctx.notes.append(f"Spec oracle ran on {len(todo)} of {len(ok_idx)} successful cases (< 10 %)")
     return cov
+
+
+def highlevel_display(ctx, model, cov):
+    """The high-level path: TupimageTerminal.display_only(id, start/end col/row) — what upload_and_display and the CLI print
+    through — for rectangles up to and beyond the 297 addressable columns / rows.  The bytes it writes are rendered by the
+    Spec terminal on a screen wide enough, and every requested cell must decode to (id, 0, row, col)."""
+    rng = ctx.rng
+    cases = []
+    for c0, c1 in [(0, 1), (0, 5), (0, 296), (0, 297), (0, 298), (0, 305), (290, 297), (290, 300), (296, 299), (3, 310), (100, 298)]:
+        for r0, r1 in [(0, 1), (0, 3), (2, 4), (295, 297)]:
+            for i in (rng.choice([1, 255, 0x1234]), rng.choice([0x01000000, 0xFF0000FF, 0x7F123456])):
+                cases.append({"id": i, "pid": 0, "c0": c0, "c1": c1, "r0": r0, "r1": r1, "style": "sr", "fewer": rng.random() < 0.3})
+    if ctx.quick():
+        cases = [c for k, c in enumerate(cases) if k % 2 == 0 or c["c1"] > 296]
+    for c in cases:
+        c["arg"] = "int"
+    # the other two kinds of argument: an ImagePlaceholder (its rectangle and placement id are the defaults, explicit
+    # values override them, allow_expansion=False clips to it) and an ImageInstance (cols x rows from 0,0)
+    for _ in range(ctx.pick(24, 200)):
+        pw, phh = rng.choice([1, 3, 7, 298, 300]), rng.choice([1, 2, 4])
+        ps_c, ps_r = rng.choice([0, 0, 2]), rng.choice([0, 0, 1])
+        pid = rng.choice([0, 5, 0xABCDEF])
+        ec = rng.choice([None, None, ps_c + pw + 2, max(ps_c + 1, ps_c + pw - 1)])
+        er = rng.choice([None, None, ps_r + phh + 1])
+        sc = rng.choice([None, None, ps_c + 1]) if pw > 1 else None
+        allow = rng.random() < 0.6
+        kind = rng.choice(["ph", "inst"])
+        i = rng.choice([7, 0x1234, 0x01000000, 0xFE00AB01])
+        if kind == "inst":
+            ps_c = ps_r = 0
+            pid = 0
+        c0 = sc if sc else ps_c
+        c1 = ec if ec else ps_c + pw
+        r0, r1 = ps_r, (er if er else ps_r + phh)
+        if not allow:
+            c1, r1 = min(c1, ps_c + pw), min(r1, ps_r + phh)
+        if c1 <= c0 or r1 <= r0:
+            continue
+        cases.append({"id": i, "pid": pid, "c0": c0, "c1": c1, "r0": r0, "r1": r1, "style": "sr", "fewer": rng.random() < 0.3, "arg": kind,
+                      "given": {"ps_c": ps_c, "ps_r": ps_r, "pw": pw, "ph": phh, "sc": sc, "ec": ec, "er": er, "allow": allow}})
+    work = ctx.work
+
+    def child():
+        common.scrub_process_env()
+        os.environ["HOME"] = work
+        os.environ["XDG_STATE_HOME"] = os.path.join(work, "state")
+        os.environ["XDG_CONFIG_HOME"] = os.path.join(work, "config")
+        import tupimage
+        disp = common.RecStream()
+        t = tupimage.TupimageTerminal(out_command=common.RecStream(), out_display=disp, in_response=open("/dev/tty", "rb", buffering=0),
+                                      id_database=os.path.join(work, "c07-hl.db"), config="DEFAULT")
+        out = []
+        from tupimage.placeholder import ImagePlaceholder
+        from tupimage.tupimage_terminal import ImageInstance
+        import datetime as _dt
+        for c in cases:
+            disp.writes.clear()
+            try:
+                if c["arg"] == "int":
+                    t.display_only(c["id"], start_col=c["c0"], start_row=c["r0"], end_col=c["c1"], end_row=c["r1"], fewer_diacritics=c["fewer"])
+                else:
+                    g = c["given"]
+                    if c["arg"] == "ph":
+                        obj = ImagePlaceholder(image_id=c["id"], placement_id=c["pid"], start_col=g["ps_c"], start_row=g["ps_r"], end_col=g["ps_c"] + g["pw"], end_row=g["ps_r"] + g["ph"])
+                    else:
+                        obj = ImageInstance(id=c["id"], path=":mem", mtime=_dt.datetime.fromtimestamp(0), cols=g["pw"], rows=g["ph"])
+                    t.display_only(obj, start_col=g["sc"], end_col=g["ec"], end_row=g["er"], allow_expansion=g["allow"], fewer_diacritics=c["fewer"])
+                out.append(["OK", b"".join(bytes(w) for w in disp.writes).hex()])
+            except Exception as e:  # noqa
+                out.append([type(e).__name__, str(e)[:200]])
+        return out
+
+    r = common.in_pty(child, rows=40, cols=340, xpx=2720, ypx=640, timeout=300)
+    if "ok" not in r:
+        ctx.corr_breaks.append({"what": "TupimageTerminal.display_only failed in the pty sandbox", "error": {k: v for k, v in r.items() if k != "tty"}})
+        return
+    scr = {"W": 340, "H": 40, "x0": 0, "y0": 0, "cur": [0, 0]}
+    ok = [(c, bytes.fromhex(res[1])) for c, res in zip(cases, r["ok"]) if res[0] == "OK"]
+    for c, res in zip(cases, r["ok"]):
+        if res[0] != "OK":
+            ctx.violations.append({"signature": {"class": "legal-input-raises", "path": "display_only"}, "what": f"display_only raised {res[0]}: {res[1]}", "case": {"kind": "highlevel", "case": c}})
+    reps = model.batch([pc.render_request(scr["W"], scr["H"], 0, 0, False, data) for _, data in ok]) if ok else []
+    for (c, data), rep in zip(ok, reps):
+        cov.add({"path": "display_only", "arg": c["arg"], "rect": [c["c0"], c["r0"], c["c1"], c["r1"]], "id": c["id"]},
+                klass=f"highlevel/{c['arg']}/cols={'>297' if c['c1'] > 297 else '<=297'}/rows={'=297' if c['r1'] == 297 else '<297'}")
+        bad = oracle_check(c, scr, None, pc.parse_render(rep))
+        if bad is not None:
+            ctx.violations.append({"signature": {"class": "decode-mismatch", "style": "display_only"},
+                                   "what": f"TupimageTerminal.display_only: cell (y,x)={bad['cell_yx']} decodes to {bad['decoded']}, the statement requires {bad['expected']}",
+                                   "case": {"kind": "highlevel", "case": c}, "observed": bad})
 
 
 def replay(ctx, model, rec):
